@@ -5,7 +5,7 @@ from props.C03 import replay
 META = {
     "text": "Lean theorems over the shared-counter core of dispatch_apply (fetch-and-increment of da_index by the caller and any number of helpers, work while the fetched index is "
             "below n, subtraction of the finished count from da_todo, completion event), for all n, all helper counts, all interleavings: no index is invoked twice, none outside "
-            "0..n-1, when the caller has returned all n invocations have ended and every index was invoked exactly once, and (n > 0) whenever the caller waits and every other thread is outside _dispatch_apply_invoke2 the completion event has been signalled (caller_released: no helper count or late helper strands the caller). Tie: every atomic transition of _dispatch_apply_invoke2 in "
+            "0..n-1, when the caller has returned all n invocations have ended and every index was invoked exactly once, and (n > 0) whenever the caller waits and every other thread is outside _dispatch_apply_invoke2 the completion event has been signalled (caller_released: no helper count or late helper strands the caller; quiescent_returned: a state in which no entered thread can step is one in which the caller has returned). Tie: every atomic transition of _dispatch_apply_invoke2 in "
             "the real library is replayed through ApplyP.step; per-index counters, return-after-all, index order / no overlap on serial targets, no overlap with barriers of a "
             "concurrent target and nested applies are evaluated on the same runs for n in {0,1,2,cpus-1,cpus,cpus+1,100,1000,20000} and six kinds of target queue.",
     "note": "Partial: the serial path (_dispatch_apply_serial, a plain loop), the thread-count selection and the width reservation on the target (C04's runningA transitions) are "
@@ -13,7 +13,7 @@ META = {
     "technique": "Lean 4 proof (inductive invariant over ghost claim / invoked lists) + replay of real atomic traces + per-index oracle",
 }
 
-THEOREMS = ["C10.invoked_once_in_range", "C10.returns_after_all", "C10.caller_released", "C10.caller_released_witness"]
+THEOREMS = ["C10.invoked_once_in_range", "C10.returns_after_all", "C10.caller_released", "C10.caller_released_witness", "C10.quiescent_returned"]
 
 
 def run(ctx):
